@@ -649,3 +649,99 @@ func RunMarshalByValue(c *Ctx, pkgs []string) {
 	}
 	c.R.Extra["marshal_by_value_sites"] = n
 }
+
+// RunGetterFieldWriters: like RunFieldWriters, but the field is named by the exported getter that hands it out (an
+// unexported field may be renamed or moved into a nested struct; the getter is the stable anchor).  The getter must
+// consist of a single `return recv.a.b...`; every store whose left-hand side, relative to a value of the receiver's
+// type, is that path or a prefix of it (a store of the enclosing struct) must sit in a reviewed writer.
+func RunGetterFieldWriters(c *Ctx, rule, getter string, allowed []string, why string) {
+	g := c.P.Fn(getter)
+	if g == nil || g.Body == nil || g.Sig == nil || g.Sig.Recv() == nil {
+		c.R.Fail("anchor-unresolved", getter, rule, "getter "+getter+" not found: re-point the rule")
+		return
+	}
+	recvNamed, _ := derefType(g.Sig.Recv().Type()).(*types.Named)
+	var path []string
+	if len(g.Body.List) == 1 {
+		if rs, ok := g.Body.List[0].(*ast.ReturnStmt); ok && len(rs.Results) == 1 {
+			e := unparen(rs.Results[0])
+			for {
+				sel, ok := e.(*ast.SelectorExpr)
+				if !ok {
+					break
+				}
+				path = append([]string{sel.Sel.Name}, path...)
+				e = unparen(sel.X)
+			}
+			if id, ok := e.(*ast.Ident); !ok || g.Pkg.TypesInfo.Uses[id] != g.Sig.Recv() {
+				path = nil
+			}
+		}
+	}
+	if recvNamed == nil || len(path) == 0 {
+		c.R.Fail("anchor-unresolved", getter, rule, "getter "+getter+" is not a single `return recv.field...`: re-point the rule")
+		return
+	}
+	okW := map[string]bool{}
+	for _, a := range allowed {
+		okW[a] = true
+		if c.P.Fn(a) == nil {
+			c.R.Fail("anchor-unresolved", a, rule, "writer "+a+" not found: re-point the table")
+		}
+	}
+	n := 0
+	for _, fi := range c.P.Funcs {
+		if fi.Body == nil || fi.Ctl {
+			continue
+		}
+		info := fi.Pkg.TypesInfo
+		check := func(l ast.Expr) {
+			// the selector chain of the store, innermost first, down to an expression of the receiver's type
+			var chain []string
+			e := unparen(l)
+			for {
+				sel, ok := e.(*ast.SelectorExpr)
+				if !ok {
+					return
+				}
+				chain = append([]string{sel.Sel.Name}, chain...)
+				e = unparen(sel.X)
+				if nt, _ := derefType(info.TypeOf(e)).(*types.Named); nt != nil && nt.Obj() == recvNamed.Obj() {
+					break
+				}
+			}
+			if len(chain) == 0 || len(chain) > len(path) {
+				return
+			}
+			for i := range chain {
+				if chain[i] != path[i] {
+					return
+				}
+			}
+			n++
+			what := recvNamed.Obj().Name() + "." + strings.Join(chain, ".")
+			for _, name := range c.attributed(fi) {
+				good := okW[name]
+				c.R.Obl(Obligation{Rule: rule, Func: name, Construct: "write to " + what, Pos: c.P.Position(l.Pos()), Discharged: good, Nontrivial: true, How: []string{"field of getter " + getter + "; writer table: " + strings.Join(allowed, ", ")}})
+				if !good {
+					c.R.Find(Finding{Rule: rule, Func: name, Construct: "unaccounted write to " + what, Pos: c.P.Position(l.Pos()),
+						Msg: fmt.Sprintf("%s (handed out by %s) is written in %s, which is not in the reviewed writer table (%s)", what, getter, name, why)})
+				}
+			}
+		}
+		ast.Inspect(fi.Body, func(nd ast.Node) bool {
+			switch s := nd.(type) {
+			case *ast.AssignStmt:
+				for _, l := range s.Lhs {
+					check(l)
+				}
+			case *ast.IncDecStmt:
+				check(s.X)
+			}
+			return true
+		})
+	}
+	if n == 0 {
+		c.R.Find(Finding{Rule: "vacuity", Func: "-", Construct: rule, Pos: "-", Msg: "no write to the field behind " + getter + " found: re-point rule " + rule})
+	}
+}
